@@ -75,3 +75,20 @@ impl Housekeeper {
         ts.expect("Timestamp overflow")
     }
 }
+
+// Verification hooks (compiled only with `--cfg mini_moka_verif`).
+#[cfg(mini_moka_verif)]
+impl Housekeeper {
+    /// The initial `sync_after` is taken from the real clock; re-derive it from the
+    /// (mock) clock reading `now` so that the housekeeping regime is deterministic.
+    pub(crate) fn verif_reset_sync_after(&self, now: Instant) {
+        self.sync_after.set_instant(Self::sync_after(now));
+    }
+
+    pub(crate) fn verif_state(&self) -> (bool, Option<Instant>) {
+        (
+            self.is_sync_running.load(Ordering::Acquire),
+            self.sync_after.instant(),
+        )
+    }
+}
